@@ -556,6 +556,7 @@ type genOpts struct {
 	eagerJoiner bool     // joiners create events before their accepted round (no honest core does)
 	joinEarly   bool     // joins are requested in the first steps (long life as validators afterwards)
 	shrink      bool     // a leave that lowers the supermajority, with a silent validator
+	hermit      bool     // the lagger first builds a long chain of loaded events on its own (high Lamport timestamps), stays cut off while the others advance several rounds, and is then pulled from: an other-parent far behind in rounds and ahead in Lamport time
 	sleeper     bool     // the last creator sleeps from steps/6 on and only wakes to create a witness of a decided round that still waits for an earlier one
 	topo        int      // gossip graph: 0 complete, 1 path, 2 two camps joined by one bridge (persistent split votes, slow elections)
 	ring        bool     // (with late) efficient ring gossip among the awake creators
@@ -565,7 +566,11 @@ type genOpts struct {
 }
 
 func (o genOpts) String() string {
-	return fmt.Sprintf("n0=%d extra=%d steps=%d lag=%v silent=%v part=%v leave=%v stale=%v byz=%v burst=%v late=%v ring=%v topo=%d sleeper=%v", o.n0, o.extra, o.steps, o.lag, o.silentThird, o.partition, o.leave, o.staleOp, o.byz, o.burst, o.late, o.ring, o.topo, o.sleeper)
+	s := fmt.Sprintf("n0=%d extra=%d steps=%d lag=%v silent=%v part=%v leave=%v stale=%v byz=%v burst=%v late=%v ring=%v topo=%d sleeper=%v", o.n0, o.extra, o.steps, o.lag, o.silentThird, o.partition, o.leave, o.staleOp, o.byz, o.burst, o.late, o.ring, o.topo, o.sleeper)
+	if o.hermit {
+		s += " hermit=true"
+	}
+	return s
 }
 
 func randomOpts(rng *rand.Rand, thorough bool, dynamic bool) genOpts {
@@ -648,6 +653,23 @@ func randomOpts(rng *rand.Rand, thorough bool, dynamic bool) genOpts {
 	return o
 }
 
+// hermitOpts: four or five validators, one of which talks to itself for a long time (a chain of
+// loaded events, hence high Lamport timestamps in a low round), stays cut off while the others
+// advance, and is then heard again.
+func hermitOpts(rng *rand.Rand, thorough bool) genOpts {
+	o := genOpts{}
+	o.n0 = 4 + rng.Intn(2)
+	o.steps = 330 + rng.Intn(60)
+	if thorough {
+		o.steps += rng.Intn(200)
+	}
+	o.lag, o.hermit = true, true
+	o.staleOp = rng.Intn(2) == 0
+	o.txRate = 2 + rng.Intn(3)
+	o.txKinds = rng.Intn(3) == 0
+	return o
+}
+
 // topoLinked: may creators x and y gossip directly
 func topoLinked(topo, n, x, y int) bool {
 	switch topo {
@@ -684,6 +706,14 @@ func generate(rng *rand.Rand, o genOpts, c *Case, ref *hnode) *dag {
 		lagger = rng.Intn(o.n0)
 		lagFrom = o.steps / 5
 		lagTo = lagFrom + o.steps/3 + rng.Intn(o.steps/4+1)
+	}
+	hermitBurst := 0
+	if o.hermit {
+		// the monologue is longer than anything the others can add to their Lamport time while the
+		// hermit is cut off (at most one per event)
+		lagFrom = 25 + rng.Intn(15)
+		hermitBurst = 70 + rng.Intn(30)
+		lagTo = lagFrom + hermitBurst + 45 + rng.Intn(20)
 	}
 	silentFrom := o.steps
 	silent := map[int]bool{}
@@ -743,9 +773,13 @@ func generate(rng *rand.Rand, o genOpts, c *Case, ref *hnode) *dag {
 	ringPos := 0
 	for count := 0; count < o.steps; count++ {
 		a := rng.Intn(n)
+		if o.hermit && count == lagFrom {
+			burstLeft, burstWho = hermitBurst, lagger
+		}
 		if burstLeft > 0 {
 			a = burstWho
 		}
+		inHermitBurst := o.hermit && burstLeft > 0 && a == lagger
 		if o.late && o.ring && burstLeft == 0 && rng.Intn(6) != 0 {
 			// efficient ring gossip among the awake creators (rounds advance every few events);
 			// a creator that is catching up gets its turn now and then
@@ -813,7 +847,7 @@ func generate(rng *rand.Rand, o genOpts, c *Case, ref *hnode) *dag {
 		if count >= silentFrom && silent[a] {
 			continue
 		}
-		if a == lagger && count >= lagFrom && count < lagTo && rng.Intn(4) != 0 {
+		if a == lagger && count >= lagFrom && count < lagTo && !(o.hermit && burstLeft > 0) && (o.hermit || rng.Intn(4) != 0) {
 			continue
 		}
 		var op *gEvent
@@ -952,6 +986,9 @@ func generate(rng *rand.Rand, o genOpts, c *Case, ref *hnode) *dag {
 		}
 		if o.idle && count > o.steps/5 && count < (3*o.steps)/5 {
 			ntx = 0 // an idle network: rounds go by without transactions, hence without blocks
+		}
+		if inHermitBurst {
+			ntx = 1 + rng.Intn(2)
 		}
 		txKind := 0
 		if o.txKinds {
